@@ -28,6 +28,11 @@ RULE = ("part A: one case = one history over the 29-letter alphabet {add(i,p), r
         "16th (quick) / every (thorough) payload byte altered, bsdiff40 header/control fields at boundary values, truncations and altered base files; or one PatchChain over archives "
         "written by the reference MPQ writer whose winning entry is a PATCH_FILE (1-3 patches deep, three storage layouts, well-formed and corrupted variants: PTCH-level corruption of the stored patch file, and container-level damage = an intact PTCH file whose "
         "compressed stream in the archive is flipped / zeroed / truncated / has a bad checksum / is announced under another codec, so that the entry cannot be unpacked). "
+        "Round 8: the four archives of part A exist in four builder configurations chosen per case (all V1 plain; V2/V3/V4/V1, V4/V4/V3/V3, V3/V2/V1/V4 - the V3/V4 ones carry HET/BET tables - two of them with "
+        "every second entry stored encrypted, plain and FIX_KEY key); after every operation also extract_files (all query spellings + absent names: one slot per name, in request order, each slot what read_file gives), "
+        "get_chain_info ((path, priority) records = the model's members, highest priority first, earlier added first among equal added priorities) and get_archive (Some exactly for members) are compared; "
+        "part B adds chains over an encrypted base entry (reference-written single unit raw/zlib, or built by the library in V1..V4) and encrypted PATCH_FILE entries (single unit raw/zlib, zlib sectors; plain and FIX_KEY key; "
+        "one variant encrypted under a wrong key = unreadable winner), and runs extract_files / get_chain_info / get_archive on every patch-entry chain. "
         "distinct = distinct (history op-kind sequence) / (api, order, priorities) / (patch type, seek trait, size classes) / (chain depth, types, layout, variant) classes executed.")
 ASSUME = ["trusted base: the PTCH/BSD0/RLE encoder and the independent RLE decoder + bsdiff40 apply in lib/props/c08.py (every generated patch is decoded and applied by the "
           "reference before use; the container layout is the one the repository's own hand-made test patches use: PTCH.patch_data_size = size of the decompressed bsdiff blob, "
@@ -39,6 +44,9 @@ ASSUME = ["trusted base: the PTCH/BSD0/RLE encoder and the independent RLE decod
           "container-level damage (the winning or a lower PATCH_FILE entry cannot be unpacked from its archive): same oracle, with md5_after taken from the intact PTCH file that was stored; only "
           "data-bearing bytes of the entry are damaged (TPatchInfo, sector offset table and block table are left consistent: structural fields of the container belong to C05)",
           "well-formed patch (plain stack: base below, patches above): Err is a violation (design reading: the error clause of the statement is for corrupted input)",
+          "encrypted entries in part B use a name without directory part and units that are a whole number of dwords (else they are left unencrypted and counted), so that the reference writer and the "
+          "repository's reader agree on key and cipher tail (the recorded C02 deviations are not this property's subject); a library-built encrypted base is consistent with the library's reader by construction",
+          "get_chain_info order: only what decides lookups is demanded (descending priority; insertion order among equal priorities given by an add); format_version / file_count are counted, not judged",
           "hook: verif_hooks::trace_start/trace_take record 'open' events inside from_archives_parallel/add_archives_parallel; a non-zero delay seed injects 0-200 us sleeps"]
 
 M32 = 0xFFFFFFFF
@@ -701,6 +709,122 @@ def gen_group(args):
             arcs2[lv + 1]["path"] = pth
             chain_case(f"container-{where}|{used}|{kind}", arcs2, "err-or-declared", None, f"{levels[lv]['type']}|container.{kind}", top,
                        extra={"corrupt_level": lv, "corrupt_where": where, "region": "container." + kind, "container_damage": kind, "container_layout": used})
+    # ---------------- encrypted entries in a chain: the base file and the stored PTCH files behind the PATCH_FILE entries are
+    # encrypted, so that Archive::read_file and read_patch_file_raw have to derive the file key (plain and FIX_KEY form).
+    # The name has no directory part and every encrypted unit is a whole number of dwords: on such entries the repository's
+    # reader and the reference writer agree (the recorded C02 deviations - key hashed from the full path, trailing len%4
+    # bytes transformed - stay out of this check). Where the base cannot be stored that way it is built by the library itself
+    # (ArchiveBuilder, by the worker), which is consistent with its own reader by construction.
+    erng = random.Random((seed * 1000003 + g) * 104729 + 11)
+    ename = f"EncFile{g}.bin"
+    fix_base, fix_patch = bool(g & 1), bool(g & 2)
+
+    def aligned_zlib(data):
+        for level in (6, 9, 1, 2, 3, 4, 5, 7, 8):
+            for wbits in (15, 14, 13, 12, 11, 10, 9):
+                co = zlib.compressobj(level, zlib.DEFLATED, wbits)
+                z = co.compress(data) + co.flush()
+                if (1 + len(z)) % 4 == 0 and 1 + len(z) < len(data):
+                    return (level, wbits), b"\x02" + z
+        return None, None
+
+    eother = f"plain-next-to-enc{g}.txt"
+    v0 = versions[0]
+    base_files = [(ename, v0), (eother, b"base " + eother.encode())]
+    zp0, _u0 = aligned_zlib(v0)
+    if g % 3 != 0 and len(v0) % 4 == 0 and len(v0) > 0:
+        base_kind = "ref-raw-unit"
+        bfile = refmpq.RefFile(ename, v0, method=0, encrypt=True, fix_key=fix_base, single_unit=True)
+    elif g % 3 != 0 and zp0 is not None:
+        base_kind = "ref-zlib-unit"
+        bfile = refmpq.RefFile(ename, v0, method=0x02, encrypt=True, fix_key=fix_base, single_unit=True, zparams=zp0)
+    else:
+        base_kind, bfile = "library-built", None
+    lib_base = None
+    if bfile is not None:
+        ebase = write("base-enc.mpq", [bfile, regular(eother, base_files[1][1])])
+    else:
+        ebase = os.path.join(gdir, "base-enc-lib.mpq")      # the worker builds <this path>.case<idx> with ArchiveBuilder
+        lib_base = {"version": 1 + g % 4, "files": [{"name": n, "data": d.hex(), "encrypt": n == ename, "fix_key": fix_base, "zlib": bool(g & 4)} for n, d in base_files]}
+
+    def enc_patch_arc(fname, lv, ptch_bytes, extra_files=(), wrong_key=False):
+        info = tpatch_info(ptch_bytes)
+        fsize = len(versions[lv + 1])
+        ss = 512 << shift
+        secs = [aligned_zlib(ptch_bytes[i:i + ss])[1] for i in range(0, len(ptch_bytes), ss)] if (g + lv) % 2 == 0 else [None]
+        if all(z is not None for z in secs):
+            # zlib sectors behind a sector offset table: the table is encrypted under key - 1, sector i under key + i
+            offs = [4 * (len(secs) + 1)]
+            for z in secs:
+                offs.append(offs[-1] + len(z))
+            fl = refmpq.FLAG_PATCH_FILE | refmpq.FLAG_ENCRYPTED | (refmpq.FLAG_FIX_KEY if fix_patch else 0)
+            tab = struct.pack("<%dI" % len(offs), *offs)
+
+            def mk2(key):
+                body = tab + b"".join(secs) if key is None else refmpq.encrypt_bytes(tab, (key - 1) & M32) + b"".join(refmpq.encrypt_bytes(z, (key + i) & M32) for i, z in enumerate(secs))
+                return [refmpq.RefFile(ename, b"\0" * fsize, method=0x02, single_unit=False, flags_extra=fl, raw_stored=info + body)] + list(extra_files)
+
+            _arc, inf = refmpq.write_archive(mk2(None), version=version, shift=shift, listfile=True)
+            pos, slen, fs, flags = inf["blocks"][0]
+            key = refmpq.file_key(("not-" + ename) if wrong_key else ename, pos, fs, flags)
+            arc, inf2 = refmpq.write_archive(mk2(key), version=version, shift=shift, listfile=True)
+            if tuple(inf2["blocks"][0][:2]) != (pos, slen):
+                raise sup.Broken(f"C08 corpus: the encrypted patch entry of group {g} moved between the two passes")
+            pth = os.path.join(gdir, fname)
+            with open(pth, "wb") as fh:
+                fh.write(arc)
+            return pth, "zlib-sectors"
+        if len(ptch_bytes) % 4 == 0:
+            unit, method, used = ptch_bytes, 0, "raw"
+        else:
+            _zp, unit = aligned_zlib(ptch_bytes)
+            method, used = 0x02, "zlib-unit"
+            if unit is None:
+                return None, None
+        fl = refmpq.FLAG_PATCH_FILE | refmpq.FLAG_ENCRYPTED | (refmpq.FLAG_FIX_KEY if fix_patch else 0)
+
+        def mk(stored):
+            return [refmpq.RefFile(ename, b"\0" * fsize, method=method, single_unit=True, flags_extra=fl, raw_stored=stored)] + list(extra_files)
+
+        _arc, inf = refmpq.write_archive(mk(info + unit), version=version, shift=shift, listfile=True)
+        pos, slen, fs, flags = inf["blocks"][0]
+        key = refmpq.file_key(("not-" + ename) if wrong_key else ename, pos, fs, flags)
+        arc, inf2 = refmpq.write_archive(mk(info + refmpq.encrypt_bytes(unit, key)), version=version, shift=shift, listfile=True)
+        if tuple(inf2["blocks"][0][:2]) != (pos, slen) or len(unit) % 4:
+            raise sup.Broken(f"C08 corpus: the encrypted patch entry of group {g} moved between the two passes")
+        pth = os.path.join(gdir, fname)
+        with open(pth, "wb") as fh:
+            fh.write(arc)
+        return pth, used
+
+    eppaths, eused = [], []
+    for lv, lev in enumerate(levels):
+        extra_files = [regular(eother, f"patch{lv + 1} ".encode() + eother.encode(), lv + 1)] if lv == depth - 1 else []
+        pth, used = enc_patch_arc(f"p{lv + 1}-enc.mpq", lv, lev["ptch"], extra_files)
+        if pth is None:                     # no dword-aligned storage found for this PTCH file: this level stays unencrypted
+            f, used = patch_entry(ename, lev["ptch"], len(versions[lv + 1]), "raw", shift)
+            pth, used = write(f"p{lv + 1}-enc.mpq", [f] + extra_files), "plain-" + used
+        eppaths.append(pth)
+        eused.append(used)
+    earcs = [{"path": ebase, "prio": prios[0], "role": "base"}] + [{"path": eppaths[lv], "prio": prios[lv + 1], "role": f"patch{lv + 1}"} for lv in range(depth)]
+    enc_info = {"enc_base": base_kind, "enc_base_fix_key": fix_base, "enc_patches": eused, "enc_patch_fix_key": fix_patch, "lib_base": lib_base}
+    eothers = [{"name": eother, "expect": (f"patch{depth} ".encode() + eother.encode()).hex()}]
+    n_before = len(cases)
+    for api in (("sequential", "from_archives_parallel", "add_archives_parallel") if not quick else ("sequential", ["from_archives_parallel", "add_archives_parallel"][g % 2])):
+        order = erng.sample(range(len(earcs)), len(earcs))
+        chain_case("wellformed-enc", earcs, "equal", versions[-1], types, top, order=order, api=api, others=eothers, extra=dict(enc_info, top_archive=eppaths[-1]))
+    # the winning PATCH_FILE entry encrypted under another key: it cannot be made sense of, so the chain owes an error
+    # (or, vacuously, bytes with the digest the intact patch declares)
+    wpth, wused = enc_patch_arc(f"p{depth}-enc-wrongkey.mpq", depth - 1, top, wrong_key=True)
+    if wpth is not None:
+        arcs2 = [dict(a) for a in earcs]
+        arcs2[-1]["path"] = wpth
+        chain_case(f"container-top|enc-{wused}|wrong-key", arcs2, "err-or-declared", None, f"{levels[-1]['type']}|container.wrong-key", top, order=erng.sample(range(len(arcs2)), len(arcs2)),
+                   extra=dict(enc_info, corrupt_level=depth - 1, corrupt_where="top", region="container.wrong-key", container_damage="wrong-key", container_layout="enc-" + wused))
+    for c_ in cases[n_before:]:
+        c_["name"] = ename
+        c_["lookups"] = spellings(ename)
+        c_["class"] = c_["class"] + f"|base={base_kind}|patches={'+'.join(eused)}|fix={int(fix_base)}{int(fix_patch)}"
     return cases
 
 
